@@ -556,6 +556,26 @@ def do_max(
     return _min_or_max(environment, value, max, case_sensitive, attribute)
 
 
+@async_variant(do_min)  # type: ignore
+async def async_do_min(
+    environment: "Environment",
+    value: "t.AsyncIterable[V] | t.Iterable[V]",
+    case_sensitive: bool = False,
+    attribute: str | int | None = None,
+) -> "V | Undefined":
+    return do_min(environment, await auto_to_list(value), case_sensitive, attribute)
+
+
+@async_variant(do_max)  # type: ignore
+async def async_do_max(
+    environment: "Environment",
+    value: "t.AsyncIterable[V] | t.Iterable[V]",
+    case_sensitive: bool = False,
+    attribute: str | int | None = None,
+) -> "V | Undefined":
+    return do_max(environment, await auto_to_list(value), case_sensitive, attribute)
+
+
 def do_default(
     value: V,
     default_value: V = "",  # type: ignore
@@ -1862,8 +1882,8 @@ FILTERS = {
     "lower": do_lower,
     "items": do_items,
     "map": do_map,
-    "min": do_min,
-    "max": do_max,
+    "min": async_do_min,
+    "max": async_do_max,
     "pprint": do_pprint,
     "random": do_random,
     "reject": do_reject,
